@@ -897,6 +897,32 @@ func localRoot(v ssa.Value) bool {
 	switch x := v.(type) {
 	case *ssa.Alloc, *ssa.MakeSlice, *ssa.MakeMap:
 		return true
+	case *ssa.Phi:
+		// a container allocated on first use: nil or a fresh make on every edge
+		seen := map[ssa.Value]bool{}
+		var all func(v ssa.Value) bool
+		all = func(v ssa.Value) bool {
+			v = an.Unwrap(v)
+			if seen[v] {
+				return true
+			}
+			seen[v] = true
+			switch y := v.(type) {
+			case *ssa.MakeMap, *ssa.MakeSlice:
+				return true
+			case *ssa.Const:
+				return y.IsNil()
+			case *ssa.Phi:
+				for _, e := range y.Edges {
+					if !all(e) {
+						return false
+					}
+				}
+				return true
+			}
+			return false
+		}
+		return all(x)
 	case *ssa.Call:
 		// a freshly built value returned by a callee (e.g. anySliceAs) is not yet shared
 		_ = x
